@@ -197,7 +197,10 @@ pub fn gen_names(rng: &mut Rng, max: usize, gnu: bool) -> Vec<Vec<u8>> {
 /// Give every non-null symbol the same shape (an "archetype": unnamed or named, one symbol type, one section index
 /// class), so that a whole chain or cycle consists of symbols a lookup may treat specially.
 pub fn apply_archetype(tab: &mut SymTab, rng: &mut Rng) -> String {
-    let unnamed = rng.bool();
+    // names: their own, none (st_name 0), or all aliases of one string (the same non-zero st_name everywhere)
+    let naming = rng.below(3);
+    let unnamed = naming == 1;
+    let alias = if naming == 2 { tab.recs.get(1).map(|r| r.get("st_name")).filter(|v| *v != 0) } else { None };
     let ty = *rng.pick(&[0u64, 1, 2, 3, 4, 5, 6]);
     let bind = *rng.pick(&[0u64, 1, 2]);
     let shndx = *rng.pick(&[0u64, 1, 0xfff1, 0xfff2, 0xffff]);
@@ -207,11 +210,14 @@ pub fn apply_archetype(tab: &mut SymTab, rng: &mut Rng) -> String {
             if unnamed {
                 r.set("st_name", 0);
             }
+            if let Some(a) = alias {
+                r.set("st_name", a);
+            }
             r.set("st_info", (bind << 4) | ty);
             r.set("st_shndx", shndx);
         }
         r.encode(tab.enc, &mut out);
     }
     tab.symtab = out;
-    format!("all symbols {} type {ty} bind {bind} shndx {shndx:#x}", if unnamed { "unnamed" } else { "named" })
+    format!("all symbols {} type {ty} bind {bind} shndx {shndx:#x}", if unnamed { "unnamed" } else if alias.is_some() { "aliases of one name" } else { "named" })
 }
